@@ -910,3 +910,19 @@ func StampAll(items []Stamped, page int) []Stamped {
 	}
 	return items
 }
+
+// Batch / Batcher violate RX.TR: the pending items are handed to a batch and then emptied in place.
+type Batch struct{ Items []string }
+
+type Batcher struct {
+	pending []string
+	out     []Batch
+}
+
+func (b *Batcher) Flush() {
+	if len(b.pending) == 0 {
+		return
+	}
+	b.out = append(b.out, Batch{Items: b.pending})
+	b.pending = b.pending[:0]
+}
